@@ -95,6 +95,16 @@ Theorem C05_ok_implies_connected : forall dec nf_of c pm keys nfs b r,
   scan_block dec nf_of c (Some pm) keys nfs b = Ok r -> p_height pm + 1 < U32 ->
   b_height b = p_height pm + 1 /\ spec_prev b = Some (p_hash pm).
 Proof. exact ok_connected. Qed.
+(** The reported hash is the hash whose parent check succeeded: both are read from the parsed
+    header when the block carries one, and both from the raw fields otherwise — never mixed. *)
+Theorem C05_ok_identity_and_parent_same_source : forall dec nf_of c pm keys nfs b r,
+  scan_block dec nf_of c (Some pm) keys nfs b = Ok r -> p_height pm + 1 < U32 ->
+  match b_hdr b with
+  | Some hd => s_hash r = fst hd /\ snd hd = p_hash pm
+  | None => flen (b_hash b) = 32 /\ s_hash r = fid (b_hash b)
+            /\ flen (b_prev b) = 32 /\ fid (b_prev b) = p_hash pm
+  end.
+Proof. exact ok_same_source. Qed.
 Theorem C05_ok_implies_metadata_consistent : forall dec nf_of c prior keys nfs b r m,
   scan_block dec nf_of c prior keys nfs b = Ok r -> b_meta b = Some m ->
   forall p, meta_size p m = bn_final (bundle p r).
